@@ -64,7 +64,7 @@ def gen_type(rng, depth: int, classes: list[dict], prefix: str) -> dict:
 
 def gen_class(rng, depth: int, classes: list[dict], prefix: str) -> str:
     name = f"{prefix}C{len(classes)}"
-    cls: dict[str, Any] = {"name": name, "fields": [], "meta": rng.choice(["none", "none", "bijective", "keyword", "casefold"])}
+    cls: dict[str, Any] = {"name": name, "fields": [], "meta": rng.choice(["none", "none", "bijective", "keyword", "casefold", "swap"])}
     classes.append(cls)
     nf = rng.randint(1, 4)
     used = set()
@@ -86,6 +86,12 @@ def gen_class(rng, depth: int, classes: list[dict], prefix: str) -> str:
             wire = ["userId", "userid", "USERID", "UserId"][i]
         has_default = ft["k"] in ("opt", "list", "dict") and rng.random() < 0.6
         cls["fields"].append({"py": py, "wire": wire, "t": ft, "default": has_default})
+    if cls["meta"] == "swap":
+        # a bijective map in which each wire key is spelled like ANOTHER field's Python name (cyclic shift): renaming
+        # must be simultaneous, not one key after the other
+        names = [f["py"] for f in cls["fields"]]
+        for i, f in enumerate(cls["fields"]):
+            f["wire"] = names[(i + 1) % len(names)] if len(names) > 1 else f["py"] + "Wire"
     # dataclass rule: non-default fields first
     cls["fields"].sort(key=lambda f: f["default"])
     return name
